@@ -25,7 +25,7 @@ type Group struct {
 	Pkg   string   // short package name
 	Funcs []string // contract keys (Layer D)
 	Ghost []vc.GhostVar
-	NoVC  bool                          // Layer O: text-level obligations only
+	NoVC  bool                         // Layer O: text-level obligations only
 	Only  func(r driver.ObResult) bool // filter of the obligations that belong to this property
 }
 
@@ -41,12 +41,12 @@ type Property struct {
 }
 
 type Ctx struct {
-	L       *driver.Loaded
-	Runner  *smt.Runner
-	Tier    string
-	Seed    int
+	L        *driver.Loaded
+	Runner   *smt.Runner
+	Tier     string
+	Seed     int
 	VerifDir string
-	Repo    string
+	Repo     string
 }
 
 type Finding struct {
@@ -141,11 +141,11 @@ func Run(ctx *Ctx, p *Property, level string) int {
 	}
 	// group by obligation name
 	type agg struct {
-		name     string
-		n, ok    int
-		ms       int64
-		backends map[string]int
-		failed   []driver.ObResult
+		name            string
+		n, ok           int
+		ms              int64
+		backends        map[string]int
+		failed          []driver.ObResult
 		fn, kind, layer string
 	}
 	byName := map[string]*agg{}
@@ -235,17 +235,17 @@ func Run(ctx *Ctx, p *Property, level string) int {
 	ev := Evidence{PropertyID: p.ID, Tier: ctx.Tier, Seed: ctx.Seed, Level: level, Assumptions: p.Assumptions,
 		WallS: time.Since(start).Seconds(), Violations: violations}
 	ev.Coverage = map[string]interface{}{
-		"obligations":              total,
-		"discharged":               discharged,
+		"obligations":               total,
+		"discharged":                discharged,
 		"known_finding_obligations": knownN,
-		"checker_cmd":              fmt.Sprintf("./check %s  (gvc: VC generation over /repo working tree; back ends raced: %s)", p.ID, strings.Join(ctx.Runner.Solvers, ", ")),
-		"trusted_base":             p.Trusted,
-		"functions_under_contract": fl,
-		"obligation_list":          oblList,
-		"samples":                  samples,
-		"solver_ms_total":          solverMs,
-		"explanation":              p.Note,
-		"contract_files":           relFiles(ctx.L.Files),
+		"checker_cmd":               fmt.Sprintf("./check %s  (gvc: VC generation over /repo working tree; back ends raced: %s)", p.ID, strings.Join(ctx.Runner.Solvers, ", ")),
+		"trusted_base":              p.Trusted,
+		"functions_under_contract":  fl,
+		"obligation_list":           oblList,
+		"samples":                   samples,
+		"solver_ms_total":           solverMs,
+		"explanation":               p.Note,
+		"contract_files":            relFiles(ctx.L.Files),
 	}
 	os.MkdirAll(filepath.Join(ctx.VerifDir, "evidence"), 0o755)
 	data, _ := json.MarshalIndent(ev, "", " ")
